@@ -203,20 +203,37 @@ func VerifC17() {
 		c := h.conn
 		vQuiesce()
 		// queued commands were dispatched in issue order
-		vAssert(c.sentCount() == h.seen+len(cmds), "every queued command is carried out once online")
-		for i := 0; i < len(cmds) && c.sentCount() == h.seen+len(cmds); i++ {
-			p := c.sentAt(h.seen + i)
+		// the requests on the wire are the issued commands in issue order; a command may be
+		// missing only if it was given up (future cancelled) because a connection died under it
+		matches := func(i int, p packet.Generic) bool {
 			switch cmds[i].kind {
 			case 0:
 				sp, ok := p.(*packet.Subscribe)
-				vAssert(ok && sp.Subscriptions[0].Topic == cmds[i].topic, "commands are carried out in the order issued (subscribe)")
+				return ok && sp.Subscriptions[0].Topic == cmds[i].topic
 			case 1:
 				up, ok := p.(*packet.Unsubscribe)
-				vAssert(ok && up.Topics[0] == cmds[i].topic, "commands are carried out in the order issued (unsubscribe)")
-			case 2:
-				pp, ok := p.(*packet.Publish)
-				vAssert(ok && pp.Message.Topic == cmds[i].topic, "commands are carried out in the order issued (publish)")
+				return ok && up.Topics[0] == cmds[i].topic
 			}
+			pp, ok := p.(*packet.Publish)
+			return ok && !pp.Dup && pp.Message.Topic == cmds[i].topic
+		}
+		idx, matched := 0, 0
+		for k := h.seen; k < c.sentCount(); k++ {
+			p := c.sentAt(k)
+			found := false
+			for idx < len(cmds) && !found {
+				if matches(idx, p) {
+					found = true
+					matched++
+				} else {
+					vAssert(futureState(cmds[idx].f) == "canceled", "a command that is not carried out was given up (its future is cancelled), never silently dropped or overtaken")
+				}
+				idx++
+			}
+			vAssert(found, "commands are carried out in the order issued")
+		}
+		if h.failures == 0 {
+			vAssert(matched == len(cmds), "every queued command is carried out once online")
 		}
 		h.applyLater()
 		// the connection drops before the acknowledgements arrive; futures must survive
@@ -266,11 +283,12 @@ func VerifC17() {
 	vAssert(vLive() == 0, "no goroutine of the service is left after Stop")
 	vAssert(s.Start(cfg), "a stopped service can be started again")
 	// the restarted service works like a fresh one: a publish survives a connection loss
-	h.F += 1
+	h.F = h.failures // no further failures while the restarted service connects
 	h.conn = h.current()
 	c17Later = nil
 	pf := s.Publish("z", []byte{42}, 1, false)
 	if h.goOnline() {
+		h.F = h.failures + 1 // one more failure: the connection may drop after the publish
 		c := h.conn
 		vQuiesce()
 		if c.alive() && c.sentCount() >= 2 {
@@ -279,6 +297,7 @@ func VerifC17() {
 			if ok && h.fail("drop-after-restart") {
 				vCover("c17-restart-drop")
 				c.Close()
+				h.F = h.failures
 				if h.goOnline() {
 					h.conn.in <- &packet.Puback{ID: pp.ID}
 					vQuiesce()
